@@ -17,6 +17,9 @@ ParsFor(opt) ==
   THEN {[delim |-> d, comment |-> c, python |-> FALSE, join |-> TRUE, jpool |-> TRUE] : d \in {<<61>>, <<58, 61>>}, c \in CommentSets}
   ELSE IF opt = "nojoin"          \* the same files read WITHOUT the option: the first definition wins
   THEN {[delim |-> d, comment |-> c, python |-> FALSE, join |-> FALSE, jpool |-> TRUE] : d \in {<<61>>, <<58, 61>>}, c \in CommentSets}
+  ELSE IF opt \in {"joinsections", "nojoinsections"}   \* few line shapes, many lines, for JOIN_SAME_ENTRIES: a key defined again after
+                                                       \* its section was left and re-opened; read with and without the option
+  THEN {[delim |-> <<61>>, comment |-> <<35>>, python |-> FALSE, join |-> (opt = "joinsections"), jpool |-> FALSE, spool |-> TRUE, jspool |-> TRUE]}
   ELSE IF opt = "sections"        \* few line shapes, many lines: sections that re-open after other sections
   THEN {[delim |-> d, comment |-> c, python |-> FALSE, join |-> FALSE, jpool |-> FALSE, spool |-> TRUE] : d \in {<<61>>, <<32>>, <<32, 61>>}, c \in {<<35>>}}
   ELSE {[delim |-> d, comment |-> c, python |-> FALSE, join |-> FALSE, jpool |-> FALSE] : d \in DelimSets, c \in CommentSets}
@@ -77,6 +80,9 @@ JoinPool(p) ==
   \cup {ContL(sp, w, E, E, E), ContL(tb \o sp, v \o sp \o w, sp, E, E)}
 
 SectionPool(p) == LET s1 == Sep1(p.delim) IN
+  IF "jspool" \in DOMAIN p /\ p.jspool
+  THEN {HeaderL(E, <<83>>, E), HeaderL(E, <<84>>, E)} \cup {EntryL(E, a, s1, x, FALSE, E, E, E) : x \in {v, w, E}} \cup {EntryL(E, b, s1, v, FALSE, E, E, E)}
+  ELSE
   {HeaderL(E, <<83>>, E), HeaderL(E, <<84>>, E)} \cup {EntryL(E, k, s1, v, FALSE, E, E, E) : k \in {a, b, cc}}
 IsSPool(p) == "spool" \in DOMAIN p /\ p.spool
 Pool(p, withBad) == IF IsSPool(p) THEN SectionPool(p) ELSE IF p.jpool THEN JoinPool(p) ELSE
